@@ -29,8 +29,8 @@ DAY = 86400 * US
 TIMES = [(0, 0, 0), (0, 4, 59), (0, 5, 1), (12, 0, 0), (23, 59, 59)]
 NODE_ID = {'root': 1, 'A': 2, 'B': 3, 'C': 4, 'D': 5, 'E': 6}
 # normalised-ast fingerprints of the hand-modelled functions (tree with the
-# repair 399dc9a); a difference escalates the run to thorough depth
-PINNED = {'_delay': 'b8e873894cb30061', 'defer': 'ea6f8245053d2131', 'periodics': '25a2cdba26718331', 'complete': 'fb12116b841dc480', 'schedule': '2f9485953a0b75f3', 'rule_10': '78f5a4901f01e365'}
+# repairs 399dc9a, 24d6ee6); a difference escalates the run to thorough depth
+PINNED = {'_delay': 'c832d05c042d15fa', 'defer': 'ea6f8245053d2131', 'periodics': '25a2cdba26718331', 'complete': 'fb12116b841dc480', 'schedule': '2f9485953a0b75f3', 'rule_10': '78f5a4901f01e365'}
 
 
 def build_specs():
@@ -47,6 +47,9 @@ def build_specs():
     specs.append({'boot': True})
     specs.append({'boot': False})
     return specs
+
+
+_ALL_SPECS = build_specs()
 
 
 def kind_of(sp):
@@ -326,6 +329,11 @@ def scenarios(ctx, specs):
                           ['complete', [2026, 3, 2, 12, 10, 0, 0], 'E', '__all__'],
                           ['defer', [2026, 3, 9, 11, 58, 0, 0]]],
                 'dup': 'node-located-twice'})
+    # (5b) boot events of two algorithms of one task (same factory, same
+    # version, same moment): each fires once (fixed finding boot-events-conflated)
+    out.append({'name': 'two-boot-nodes', 'events': [['A', si(boot=True)], ['B', si(boot=True)]],
+                'targets': ['T', 'U'],
+                'steps': [['start', mon], ['dispatch'], ['defer', nextmon]]})
     # (6) seeded random scenarios over mutually independent nodes
     rng = random.Random('%s:C20:scenarios' % ctx.seed)
     groups = [['root'], ['A', 'B'], ['A'], ['B'], ['C'], ['D'], ['E']]
@@ -468,6 +476,23 @@ def scenario_oracle(ctx, sc, trace, engine):
                     due.setdefault(tag, []).append(d)
             newly = [t for t in set(snap['que'])
                      if snap['que'].count(t) > pre['que'].count(t)]
+            if not aborted and step[0] == 'start':
+                # a boot event fires once per process: at the first defer() every
+                # node that declares one is queued (independent of what _delay
+                # says about it)
+                for name, spi in sc['events']:
+                    if 'boot' not in _ALL_SPECS[spi]:
+                        continue
+                    tags = [t for t in snap['nodes'] if t.split('.')[-1] == name]
+                    for tag in tags:
+                        node = snap['nodes'][tag]
+                        want = ['__all__'] if node['asp'] else sc['targets']
+                        if tag not in snap['que'] or not set(want) <= set(node['todo']):
+                            ctx.violation(
+                                'boot-not-fired', {'tag': name},
+                                'first defer() of the process: %s declares a boot event but que=%s todo=%s'
+                                % (tag, snap['que'], node['todo']),
+                                dict(rep, theorem='C20_boot'))
             if not aborted:
                 for tag, ds in due.items():
                     st0 = pre['status'].get(tag, 'initial')
